@@ -1,6 +1,7 @@
 """C15 An unreadable or vanishing file affects only itself (shape F, engine E1 fail@k on read-side calls)."""
 import itertools
 import os
+import re
 
 from .. import common as C
 from .. import grouplab as G
@@ -131,7 +132,7 @@ def evaluate_transform_fails(case):
 
 def warned(stderr_text):
     """A warning about a file or directory (the one-time notice that the file system has no FIEMAP is none)."""
-    return any(" warn:" in l and "FIEMAP" not in l for l in stderr_text.splitlines())
+    return any(re.search(r"\bwarn(ing)?\b", l, re.I) and "FIEMAP" not in l for l in stderr_text.splitlines())
 
 
 def evaluate_transform_unlaunchable(case):
@@ -330,19 +331,32 @@ def evaluate(case):
                               frozenset(a for a in aff_scanned if a not in obs_paths)]
             if must_drop:
                 candidates = [c for c in candidates if must_drop <= c] or [frozenset(must_drop)]
-            accepted = None
-            for cand in candidates:
-                if expected_for(cand) == set(obs_groups):
-                    accepted = cand
-                    break
-            if accepted is not None and not accepted:
-                # same groups as without the fault: then also the same length and hash for each of them
+            def attr_mismatch():
+                out = []
                 for g in obs.groups:
                     key = frozenset(os.path.normpath(C.u(p)) for p in g["paths"])
                     if key in base_attr and base_attr[key] != (g["len"], g["hash"]):
+                        out.append((sorted(key), (g["len"], g["hash"]), base_attr[key]))
+                return out
+
+            accepted = None
+            matching = [cand for cand in candidates if expected_for(cand) == set(obs_groups)]
+            if matching:
+                accepted = matching[0]
+            if accepted is not None and not accepted:
+                # same groups as without the fault: then also the same length and hash for each of them - unless
+                # the groups are ALSO those of the tree without some affected entries (under --unique / --rf-under the
+                # listed groups can coincide): a file that lost its companions early is rightly reported with the hash
+                # of the stage at which it became unique
+                mism = attr_mismatch()
+                others = [c for c in matching if c]
+                if mism and others:
+                    accepted = others[0]
+                else:
+                    for key, got, want in mism:
                         viol.append(dict(feat, kind="group_attributes_differ", filter=" ".join(flt) or "default",
-                                         detail="%s: group %s has (len, hash) %s, fault-free run %s" % (
-                                             ctx, sorted(key), (g["len"], g["hash"]), base_attr[key]), replay_case=rc_case))
+                                         detail="%s: group %s has (len, hash) %s, fault-free run %s" % (ctx, key, got, want),
+                                         replay_case=rc_case))
             if accepted is None:
                 viol.append(dict(feat, kind="other_files_affected", filter=" ".join(flt) or "default",
                                  detail="%s: groups %s; expected the fault-free result %s or the result of the tree without a subset of %s" % (
